@@ -493,9 +493,89 @@ def twin_case(rec, pvl, pairing, key, classes):
     # through the same decoder (C16 covers results in general; here the digits)
 
 
+ROLE_LABELS = (
+    "a = 1\nOBJECT = outer\n  b = 2.50\n  GROUP = inner\n    c = (1, 2.0)\n"
+    "  END_GROUP = inner\n  BEGIN_GROUP = second\n  END_GROUP\nEND_OBJECT = outer\n"
+    "GROUP = top\n  d = 4 <m>\nEND_GROUP\nEND\n",
+    "GROUP = g\n  x = 1\nEND_GROUP\nEND\n",
+    "OBJECT = o\n  x = 1\nEND_OBJECT\nEND\n",
+    "OBJECT = o\n  OBJECT = o\n    GROUP = o\n      x = 1.5\n    END_GROUP\n"
+    "  END_OBJECT\nEND_OBJECT\nGROUP = o\nEND_GROUP\nEND\n",
+    "BEGIN_OBJECT = o\n  y = 2\nEND_OBJECT = o\nBEGIN_GROUP = g\n  z = 3\nEND_GROUP = g\nEND\n",
+)
+ROLE_SETS = (("group", "object"), ("module", "group", "object"),
+             ("module", "group"), ("module", "object"))
+
+
+def one_class_for_several_roles(rec, pvl):
+    """The caller hands ONE class over for several container roles (a
+    combination of substitutes like any other): every block of those roles is
+    an instance of it, the others keep the default class, same content."""
+    col = pvl.collections
+
+    class Box(col.OrderedMultiDict):
+        pass
+
+    class BoxObject(col.PVLObject):
+        pass
+
+    for pairing in PAIRINGS:
+        for text in ROLE_LABELS:
+            if pairing in ("ISIS", "ISISGrammar+plain-OmniDecoder"):
+                text = text.replace("BEGIN_", "")
+            for roles in ROLE_SETS:
+                for cls in (Box, BoxObject):
+                    classes = tuple(cls for _ in range(3))
+                    subs = {r: True for r in roles}
+                    wit = {"pairing": pairing, "text": text, "one_class": cls.__name__,
+                           "roles": list(roles)}
+                    rec.case((pairing, "roles", text, roles, cls.__name__), True)
+                    rec.count("one_class_for_several_roles")
+                    try:
+                        plain = load_with(pvl, pairing, text, {}, classes)
+                    except Exception:
+                        rec.count("plain_load_failed_not_judged")
+                        continue
+                    try:
+                        got = load_with(pvl, pairing, text, subs, classes)
+                    except Exception as e:
+                        rec.violation(CHECK, pairing, "load-fails-only-with-substitutes",
+                                      {"exc": type(e).__name__, "one_class_for": list(roles)},
+                                      wit, f"{type(e).__name__}: {e}"[:300])
+                        continue
+                    bad = []
+
+                    def both(a, b, where):
+                        role = ("module" if isinstance(a, col.PVLModule) else
+                                "group" if isinstance(a, col.PVLGroup) else "object")
+                        want = cls if role in roles else type(a)
+                        if type(b) is not want:
+                            bad.append(f"{where}: {role} block is {type(b).__name__}, "
+                                       f"expected {want.__name__}")
+                        ia, ib = list(a.items()), list(b.items())
+                        if [k for k, _ in ia] != [k for k, _ in ib]:
+                            bad.append(f"{where}: names {[k for k, _ in ib]}")
+                            return
+                        for (k, va), (_, vb) in zip(ia, ib):
+                            if isinstance(va, col.OrderedMultiDict):
+                                if not isinstance(vb, col.OrderedMultiDict):
+                                    bad.append(f"{where}/{k}: not a block")
+                                else:
+                                    both(va, vb, f"{where}/{k}")
+                            elif repr(va) != repr(vb):
+                                bad.append(f"{where}/{k}: {vb!r} != {va!r}")
+
+                    both(plain, got, "$")
+                    if bad:
+                        rec.violation(CHECK, pairing, "container-not-substitute",
+                                      {"one_class_for": list(roles)}, wit, "; ".join(bad)[:300])
+
+
 def shard(i, n, tier, seed, rec, hb):
     pvl = common.import_pvl()
     classes = make_classes(pvl)
+    if i == 1 % n:
+        one_class_for_several_roles(rec, pvl)
     for pairing in PAIRINGS:
         if pairing == "PDS3":
             continue        # PDSLabelDecoder takes no real_cls
@@ -517,7 +597,8 @@ def finish_kwargs(rec, tier):
             "seen[real][sequence]", "seen[real][set]",
             "seen[real][quantity-magnitude]", "seen[quantity][sequence]",
             "seen[quantity][block]", "seen[container:group][depth1]",
-            "seen[container:object][depth2]", "seen[int][sequence]"]
+            "seen[container:object][depth2]", "seen[int][sequence]",
+            "one_class_for_several_roles"]
     return dict(required_counters=req,
                 assumptions=["PDSLabelDecoder has no real_cls parameter: that "
                              "configuration is not constructible and is not "
